@@ -9,6 +9,7 @@ import (
 	"os"
 	"reflect"
 	"strings"
+	"time"
 
 	am "github.com/hashicorp/go-argmapper"
 	"github.com/hashicorp/go-argmapper/verifh/scn"
@@ -25,9 +26,23 @@ type myErr struct{ ID int }
 
 func (e *myErr) Error() string { return fmt.Sprintf("myErr %d", e.ID) }
 
+// pointer types defined in terms of themselves (legal Go; reflection cannot synthesise them)
+type selfPtr *selfPtr
+type selfQ *selfR
+type selfR *selfQ
+
 func tyName(t reflect.Type) string {
-	if t == tErr {
+	switch {
+	case t == tErr:
 		return "E"
+	case t == reflect.TypeOf(selfPtr(nil)):
+		return "SP"
+	case t == reflect.TypeOf(selfQ(nil)):
+		return "SQ"
+	case t == reflect.TypeOf(selfR(nil)):
+		return "SR"
+	case t.Kind() == reflect.Slice:
+		return "[]" + tyName(t.Elem())
 	}
 	return scn.TypeName(t)
 }
@@ -224,7 +239,7 @@ type d14 struct {
 }
 
 var tagText = map[string]string{"none": "", "ren": `argmapper:"Ren"`, "typeOnly": `argmapper:",typeOnly"`,
-	"rensub": `argmapper:"Ren,subtype=s"`, "typeOnlysub": `argmapper:",typeOnly,subtype=s"`, "subeq": `argmapper:",typeOnly,subtype=k=v"`}
+	"rensub": `argmapper:"Ren,subtype=s"`, "typeOnlysub": `argmapper:",typeOnly,subtype=s"`, "subeq": `argmapper:",typeOnly,subtype=k=v"`, "subup": `argmapper:"Ren,subtype=Foo"`}
 
 func sideTypes(s sideD) []reflect.Type {
 	switch s.Kind {
@@ -296,14 +311,26 @@ func obsC14(raw json.RawMessage) map[string]interface{} {
 		fn = func(*stS3) {}
 	case "S4":
 		fn = func(stS4) {}
+	case "S5":
+		fn = func(selfPtr) {}
+	case "S6":
+		fn = func(selfQ, scn.T1) selfR { return nil }
 	default:
 		inT := sideTypes(d.Inp)
 		outT := sideTypes(d.Out)
+		variadic := false
 		switch d.Special {
 		case "mixedin":
 			inT = append(inT, scn.TypeOf("T3"))
+		case "mixedin2":
+			inT = append([]reflect.Type{scn.TypeOf("T3")}, inT...)
 		case "mixedout":
 			inT, outT = nil, append(sideTypes(d.Inp), scn.TypeOf("T3"))
+		case "mixedout2":
+			inT, outT = nil, append([]reflect.Type{scn.TypeOf("T3")}, sideTypes(d.Inp)...)
+		case "variadic":
+			variadic = true
+			inT[len(inT)-1] = reflect.SliceOf(inT[len(inT)-1])
 		}
 		switch d.ErrPos {
 		case "final":
@@ -311,7 +338,7 @@ func obsC14(raw json.RawMessage) map[string]interface{} {
 		case "middle":
 			outT = append([]reflect.Type{outT[0], tErr}, outT[1:]...)
 		}
-		ft := reflect.FuncOf(inT, outT, false)
+		ft := reflect.FuncOf(inT, outT, variadic)
 		fn = reflect.MakeFunc(ft, func([]reflect.Value) []reflect.Value {
 			res := make([]reflect.Value, len(outT))
 			for i, t := range outT {
@@ -320,7 +347,33 @@ func obsC14(raw json.RawMessage) map[string]interface{} {
 			return res
 		}).Interface()
 	}
-	f, err := am.NewFunc(fn)
+	// NewFunc runs under a watchdog: a construction that never returns is an observation, not a stuck driver
+	type nfRes struct {
+		f   *am.Func
+		err error
+		p   interface{}
+	}
+	done := make(chan nfRes, 1)
+	go func() {
+		defer func() {
+			if p := recover(); p != nil {
+				done <- nfRes{p: p}
+			}
+		}()
+		f, err := am.NewFunc(fn)
+		done <- nfRes{f: f, err: err}
+	}()
+	var f *am.Func
+	var err error
+	select {
+	case r := <-done:
+		if r.p != nil {
+			panic(r.p)
+		}
+		f, err = r.f, r.err
+	case <-time.After(3 * time.Second):
+		return map[string]interface{}{"ev": "obs", "ok": false, "inp": []jval{}, "out": []jval{}, "panic": "timeout: NewFunc did not return"}
+	}
 	obs := map[string]interface{}{"ev": "obs", "ok": err == nil, "inp": []jval{}, "out": []jval{}}
 	if err != nil {
 		obs["detail"] = strings.SplitN(err.Error(), "\n", 2)[0]
